@@ -18,6 +18,7 @@ func main() {
 		}
 	}
 	r.Register("hist", dh.RunHist)
+	r.Register("histf", dh.RunHistFresh)
 	r.Register("stale", dh.RunStale)
 	if r.Replayed() {
 		return
@@ -25,9 +26,9 @@ func main() {
 	dh.Corpus(r)
 	dh.Generate(r, 2, []int{1, 2, 3}, dh.NCfg)
 	if r.Thorough() {
-		dh.Exhaustive(r, 2, 4, 13)
-		dh.Exhaustive(r, 2, 5, 8)
+		dh.Exhaustive(r, "hist", 2, 4, 14)
+		dh.Exhaustive(r, "histf", 2, 5, 8)
 	} else {
-		dh.Exhaustive(r, 2, 3, 13)
+		dh.Exhaustive(r, "hist", 2, 3, 14)
 	}
 }
